@@ -290,24 +290,18 @@ func (b *BoundedBacktracker) SearchAtWithState(haystack []byte, at int, state *B
 		if end >= 0 {
 			return startPos, end, true
 		}
-		// In leftmost-first mode the visited table is kept across start positions: an entry
-		// is only left behind by a configuration that was explored completely without reaching
-		// a match, and that cannot change with the start position. Starting from a fresh table
-		// for every start position made the search quadratic in the haystack
+		// The visited table is kept across start positions: an entry is only left behind
+		// by a configuration that was explored completely without reaching a match, and
+		// that cannot change with the start position. Starting from a fresh table for
+		// every start position made the search quadratic in the haystack
 		// (([a-z])+[0-9] on a^n: every start re-explores the whole tail).
-		if !state.Longest {
-			continue
-		}
-		// O(1) reset: increment generation instead of O(n) array clear
-		state.Generation++
-		// Handle overflow by resetting the array (every 256 searches)
-		if state.Generation == 0 {
-			full := state.Visited[:cap(state.Visited)]
-			for i := range full {
-				full[i] = 0
-			}
-			state.Generation = 1
-		}
+		//
+		// This holds in leftmost-longest mode as well. There a start position explores
+		// every branch and reports the largest match end, but the table is only carried
+		// over from start positions that reported NO match: had any configuration they
+		// visited led to a match, its end would have been passed up to the start. So
+		// every configuration in the table is dead, whatever the start position, and
+		// skipping it cannot lose a match end of a later start position.
 	}
 	return -1, -1, false
 }
